@@ -66,6 +66,9 @@ def run_workers(ck, n_prog, n_sched, n_inputs):
     d = common.scratch_dir("c08_gen")
     per = max(1, (n_prog + NPROC - 1) // NPROC)
     jobs = []
+    # the fixed corpus (c08_corpus.py) always runs, first
+    jobs.append(([PY, str(HARNESS / "c08_impl.py"), str(ck.seed), "-1", "0", "1", str(d / "corpus.jsonl"), "null", str(n_inputs)],
+                 d / "corpus.jsonl"))
     for k in range(NPROC):
         start = k * per
         cnt = min(per, n_prog - start)
@@ -92,7 +95,10 @@ def run_workers(ck, n_prog, n_sched, n_inputs):
                     recs.append(json.loads(line))
                 except ValueError:
                     pass
-    recs.sort(key=lambda r: [int(x) for x in re.findall(r"\d+", r["tag"])])
+    recs.sort(key=lambda r: [0 if r["tag"].startswith("c") else 1] + [int(x) for x in re.findall(r"\d+", r["tag"])])
+    for r in recs:
+        if r["tag"].startswith("c") and r.get("status") != "ok":
+            ck.broken_obligation("corpus:" + r["tag"], "corpus program no longer compiles: %s" % r.get("error", r.get("status")))
     return recs
 
 
@@ -217,6 +223,8 @@ def select_for_search(ck, recs, limit, suspects=()):
     model and the real backend disagreed come first"""
     def score(r):
         s = 1000.0 if r["tag"] in suspects else 0.0
+        if r["tag"].startswith("c"):
+            s += 5000.0  # the fixed corpus is always compiled and run
         for p in r.get("procs", []):
             f = p.get("feat") or {}
             s += 3 * min(f.get("alloc", 0), 3) + 4 * f.get("alloc_in_else", 0) + 3 * min(f.get("window", 0), 3) \
@@ -376,7 +384,7 @@ def run(ck: common.Check):
 
     ck.log("correspondence done: %.1fs" % (time.time() - t0))
     # ---- 3. failing-input search against the real generated C (cheap enough for quick)
-    san_search(ck, okrecs, ck.n(48, 220), suspects)
+    san_search(ck, okrecs, ck.n(52, 230), suspects)
     ck.log("sanitizer search done: %.1fs" % (time.time() - t0))
 
     # ---- 4. evidence
@@ -460,7 +468,7 @@ def correspondence(ck, okrecs):
         try:
             compare_one(ck, stream, kind, term, real, meta, m, wf, wfw)
         finally:
-            if diverged_before(stream) > ndiv and isinstance(meta, dict) and str(meta.get("tag", "")).startswith("g"):
+            if diverged_before(stream) > ndiv and isinstance(meta, dict) and str(meta.get("tag", "")).startswith(("g", "c")):
                 suspects.add(meta["tag"])
     return finish_corr(ck, wf, wfw, suspects)
 
